@@ -408,8 +408,15 @@ class IH5Dataset(IH5Node):
         self._guard_read_only()
         if self._cidx == self._last_idx:
             raise ValueError("Cannot copy, this node is already from latest patch!")
-        # copy value from older container to current patch
-        self._files[-1][self._gpath] = self[()]
+        # copy value from older container to current patch (a dataset in
+        # the latest container hides older attributes, so take them along)
+        attrs = {k: attr_value_for_copy(v) for k, v in self.attrs.items()}
+        val, newest = self[()], self._files[-1]
+        if self._gpath in newest:  # virtual node holding attribute changes
+            del newest[self._gpath]
+        newest[self._gpath] = val
+        for k, v in attrs.items():
+            newest[self._gpath].attrs[k] = v
 
     # h5py-like interface
     @property
